@@ -7,7 +7,7 @@ def main():
     if len(sys.argv) >= 6:
         pid, name, check, tier, caught = sys.argv[1:6]
         note = sys.argv[6] if len(sys.argv) > 6 else ""
-        src = f"/tmp/seeded/{pid}/{name}"
+        src = os.path.join(os.environ.get("SEEDED_ROOT", "/tmp/seeded"), pid, name)
         dst = f"/verif/seeded/{pid}-{name}"
         os.makedirs(dst, exist_ok=True)
         for fn in ("patch.diff", "demo.py"):
